@@ -272,15 +272,27 @@ func TestC18(t *testing.T) {
 				}
 			}
 			// victim's published state: left marker, no live endpoint keys
-			if ns, ok := victim.Srv.VerifGossip().NodeState(victim.ID); ok {
-				if !ns.Left {
-					c.Fatalf("C18: %s shut down gracefully but its gossip state has no left marker", victim.ID)
+			if ns, ok := victim.Srv.VerifGossip().NodeState(victim.ID); ok && !ns.Left {
+				c.Fatalf("C18: %s shut down gracefully but its gossip state has no left marker", victim.ID)
+			}
+			// the upstream handlers withdraw their endpoints on their own goroutines,
+			// which Shutdown does not wait for: allow them a moment
+			still := ""
+			withdrawn := Eventually(Deadline(), func() bool {
+				ns, ok := victim.Srv.VerifGossip().NodeState(victim.ID)
+				if !ok {
+					return true
 				}
 				for _, e := range ns.Entries {
 					if strings.HasPrefix(e.Key, "endpoint:") && !e.Deleted {
-						c.Fatalf("C18: %s shut down gracefully but still advertises %s=%s", victim.ID, e.Key, e.Value)
+						still = e.Key + "=" + e.Value
+						return false
 					}
 				}
+				return true
+			})
+			if !withdrawn {
+				c.Fatalf("C18: %s shut down gracefully but still advertises %s %v later", victim.ID, still, Deadline())
 			}
 		} else {
 			victim.Srv.VerifKill()
